@@ -1,11 +1,13 @@
 package c20
 
 import (
+	"context"
 	"fmt"
 	"net"
 	"strconv"
 	"testing"
 
+	"github.com/pion/transport/v4"
 	turn "github.com/pion/turn/v5"
 	"github.com/pion/turn/v5/verif/rep"
 	"github.com/pion/turn/v5/verif/simnet"
@@ -249,4 +251,89 @@ func TestC20Requested(t *testing.T) {
 		}
 	}
 	r.Exhaustive = r.Exhaustive && done
+	if si == 0 {
+		observeOddAddr(r, lc)
+	}
+}
+
+// ---------------------------------------------------------------- observation: local address of a foreign type
+
+// oddNet wraps simnet so that sockets report a local address that is neither
+// *net.UDPAddr nor *net.TCPAddr. The generators then fail with errNilConn.
+// The property statement does not cover this situation (a port *was* bound),
+// so the outcome is only counted as a class and noted: does the failing
+// generator leave the socket it bound open?
+type oddNet struct {
+	transport.Net
+}
+
+type oddAddr struct{ s string }
+
+func (a oddAddr) Network() string { return "odd" }
+func (a oddAddr) String() string  { return a.s }
+
+type oddPC struct{ net.PacketConn }
+
+func (c oddPC) LocalAddr() net.Addr { return oddAddr{c.PacketConn.LocalAddr().String()} }
+
+type oddLn struct{ net.Listener }
+
+func (l oddLn) Addr() net.Addr { return oddAddr{l.Listener.Addr().String()} }
+
+func (o oddNet) ListenPacket(network, address string) (net.PacketConn, error) {
+	c, err := o.Net.ListenPacket(network, address)
+	if err != nil {
+		return nil, err
+	}
+
+	return oddPC{c}, nil
+}
+
+func (o oddNet) CreateListenConfig(c *net.ListenConfig) transport.ListenConfig {
+	return oddLC{o.Net.CreateListenConfig(c)}
+}
+
+type oddLC struct{ transport.ListenConfig }
+
+func (l oddLC) Listen(ctx context.Context, network, address string) (net.Listener, error) {
+	ln, err := l.ListenConfig.Listen(ctx, network, address)
+	if err != nil {
+		return nil, err
+	}
+
+	return oddLn{ln}, nil
+}
+
+func observeOddAddr(r *rep.Report, lc localClasses) {
+	for _, gen := range []string{"range", "static"} {
+		for _, proto := range []string{"udp", "tcp"} {
+			for _, port := range []int{0, 50001} {
+				nw := simnet.New()
+				nw.LogOff = true
+				sr := &scriptRand{next: fixedAnswer(0)}
+				var g turn.RelayAddressGenerator
+				if gen == "range" {
+					g = &turn.RelayAddressGeneratorPortRange{RelayAddress: relay4, Address: "0.0.0.0", MinPort: reqMin, MaxPort: reqMax,
+						MaxRetries: 1, Rand: sr, Net: oddNet{nw.Transport()}}
+				} else {
+					g = &turn.RelayAddressGeneratorStatic{RelayAddress: relay4, Address: "0.0.0.0", Net: oddNet{nw.Transport()}}
+				}
+				_ = g.Validate()
+				res := allocate(g, proto, turn.AllocateListenerConfig{Network: proto + "4", RequestedPort: port})
+				left := open(nw, proto)
+				out := "error,nothing-left-open"
+				switch {
+				case res.panicS != "":
+					out = "panic"
+				case res.err == nil:
+					out = "no-error"
+				case len(left) > 0:
+					out = "error,bound-socket-left-open"
+					r.Note("observation (outside the statement): %s generator, %s, requested port %d, local address of a foreign type: returns %q and leaves %v bound",
+						gen, proto, port, res.err.Error(), left)
+				}
+				lc[fmt.Sprintf("observe-foreign-addr-type:%s|%s|requested=%v|%s", gen, proto, port != 0, out)]++
+			}
+		}
+	}
 }
